@@ -1,19 +1,28 @@
 """C50 — block-wise text reading reproduces the file exactly."""
 PROPERTY = "C50"
 META = {
-    "category": "other",
-    "technique": "bounded stand-in: run-time postconditions of read_bytes / read_text on real files over an enumerated corpus of contents, delimiters and blocksizes; the offset loop of read_bytes (float accumulation) is not yet under contract",
-    "text": "BOUNDED, not proved: for 20 hand-picked contents (empty, no delimiter, trailing delimiter, runs, multi-character and self-overlapping delimiters, unicode, form feed/NEL) plus random contents, delimiters \\n | || aa and blocksizes 1,2,3,5,7,len/2,len+1,None: read_bytes blocks concatenate to the file and every interior boundary follows a delimiter; read_text returns the same lines for every blocksize and they equal the file split after each delimiter with no empty trailing element; files_per_partition / include_path variants agree.",
-    "note": "No deductive proof (level other): fsspec.utils.read_block and text decoding are third-party/IO; the offset arithmetic of read_bytes uses a float accumulator (candidate for the float model, not done). Recorded finding: self-overlapping delimiters.",
+    "category": "proof",
+    "technique": "contract-based deductive verification of the offset/length arithmetic of read_bytes (fragment extracted mechanically, one contract per branch of the blocksize selection: exact integers / float accumulator under the rounding model), z3; bounded stand-in: run-time postconditions of read_bytes / read_text on real files over an enumerated corpus of contents, delimiters and blocksizes",
+    "text": "PROVED for every file size and blocksize below 2**40: the nominal (offset, length) pairs that read_bytes hands to read_block_from_file tile the file exactly ([0 or 1, size) without gap or overlap, one length per offset, no empty block after the first), on the integer branch including termination of the loop, on the float branch under the rounding model. That is the arithmetic half of `the blocks concatenate to the file contents`; where each block really ends (after a delimiter) is fsspec.read_block (third party, not proved). BOUNDED, not proved: for 20 hand-picked contents (empty, no delimiter, trailing delimiter, runs, multi-character and self-overlapping delimiters, unicode, form feed/NEL) plus random contents, delimiters \\n | || aa and blocksizes 1,2,3,5,7,len/2,len+1,None: read_bytes blocks concatenate to the file and every interior boundary follows a delimiter; read_text returns the same lines for every blocksize and they equal the file split after each delimiter with no empty trailing element; files_per_partition / include_path variants agree.",
+    "note": "Trusted: VC generator, z3, float model (2**-53 relative error per operation, integers <= 2**53 exact, no overflow). The verified text is the `else` branch of the per-file size check inside read_bytes up to the append of the offsets, with the `if size % blocksize and size > blocksize` statement replaced by the branch the precondition selects (mechanical, stated in the evidence). fsspec.utils.read_block, delimiter search and text decoding are third-party/IO: bounded natively only. Recorded finding: self-overlapping delimiters.",
     "design_ref": "DESIGN.md §5.12",
 }
-MODULES = []
-LEVEL = "other"
-EXPLANATION = "bounded run-time contract checks on real files; no obligations generated"
-TRUSTED = ["reference line splitter (str.split based)", "local filesystem"]
-ASSUMPTIONS = ["bounded corpus"]
+MODULES = ["contracts.lemmas", "contracts.bytescore"]
+ONLY = {"contracts.lemmas": ["lemma_divmod"]}
+LEVEL = "proof"
+EXPLANATION = "offset arithmetic of read_bytes proved (both branches); delimiter alignment and read_text by bounded run-time contract checks on real files"
+TRUSTED = ["VC generator /verif/vf", "z3", "float rounding model", "fsspec.utils.read_block (third party)", "reference line splitter (str.split based)", "local filesystem"]
+ASSUMPTIONS = ["file and block sizes below 2**40", "no float overflow", "bounded corpus for the native part"]
 
 
 def native(tier, seed):
     from vf import text_native
     return [text_native.sweep(tier, seed)]
+
+
+NATIVE_COVERS = {"read_bytes[offsets, blocksize kept]": ["read_bytes"], "read_bytes[offsets, blocksize shrunk]": ["read_bytes"]}
+
+# thorough tier: deliberate edits that must turn an obligation red (applied to a scratch copy, never to /repo)
+MUTATIONS = [('contracts.bytescore', 'read_bytes[offsets, blocksize kept]', 'dask/bytes/core.py', '                length.append(size - off[-1])', '                length.append(size - off[-1] - 1)'),
+             ('contracts.bytescore', 'read_bytes[offsets, blocksize shrunk]', 'dask/bytes/core.py', '                    off.append(int(place))', '                    off.append(int(place) + 1)'),
+             ('contracts.bytescore', 'read_bytes[offsets, blocksize shrunk]', 'dask/bytes/core.py', '                    length[0] -= 1', '                    length[0] -= 2')]
